@@ -1,0 +1,36 @@
+//go:build verif
+
+package syntax
+
+import "sync"
+
+// Verification gates (build tag "verif"): named switches that disable one tree rewrite each,
+// so that a pattern can be compiled with and without it.
+
+var (
+	verifGateMu sync.RWMutex
+	verifGates  = map[string]bool{}
+)
+
+// VerifSetGate switches a named gate on or off; VerifResetGates clears all of them.
+func VerifSetGate(name string, on bool) {
+	verifGateMu.Lock()
+	defer verifGateMu.Unlock()
+	if on {
+		verifGates[name] = true
+	} else {
+		delete(verifGates, name)
+	}
+}
+
+func VerifResetGates() {
+	verifGateMu.Lock()
+	defer verifGateMu.Unlock()
+	verifGates = map[string]bool{}
+}
+
+func verifGate(name string) bool {
+	verifGateMu.RLock()
+	defer verifGateMu.RUnlock()
+	return verifGates[name]
+}
